@@ -109,6 +109,11 @@ Defect(d) ==
             /\ nodes' = nodes \cup {AltNode(cnt, cur.name)}
             /\ links' = links \cup {L(cur.last, "+", Id(cnt), "+")}
             /\ cnt' = cnt + 1
+       [] d = "branchalt" ->   \* an snp bubble whose alternative allele carries a tip: the cut vertex is a non-reference node
+            /\ nodes' = nodes \cup {RefNode(cnt, cur.name, cur.off), AltNode(cnt + 1, cur.name), RefNode(cnt + 2, cur.name, cur.off + 2), AltNode(cnt + 3, cur.name)}
+            /\ links' = links \cup {L(cur.last, "+", Id(cnt), "+"), L(cur.last, "+", Id(cnt + 1), "+"), L(Id(cnt), "+", Id(cnt + 2), "+"),
+                                    L(Id(cnt + 1), "+", Id(cnt + 2), "+"), L(Id(cnt + 1), "+", Id(cnt + 3), "+")}
+            /\ cnt' = cnt + 4
        [] d = "cycle3" ->      \* three articulation points on one cycle without inner node: last, x, y pairwise linked, each with its own continuation
             /\ nodes' = nodes \cup {RefNode(cnt, cur.name, cur.off), RefNode(cnt + 1, cur.name, cur.off + 2), AltNode(cnt + 2, cur.name), AltNode(cnt + 3, cur.name)}
             /\ links' = links \cup {L(cur.last, "+", Id(cnt), "+"), L(Id(cnt), "+", Id(cnt + 1), "+"), L(cur.last, "+", Id(cnt + 1), "+"),
